@@ -37,6 +37,18 @@ impl VComp {
     { unimplemented!() }
 }
 
+impl VComp {
+    // `CompoundFile::flush`: flushes the underlying medium.  Streams are not tracked by it: a
+    // stream's buffered bytes are the stream's own business (see VStream).
+    pub uninterp spec fn medium_flushed(&self) -> bool;
+    #[verifier::external_body]
+    pub fn flush(&mut self) -> (r: std::io::Result<()>)
+        ensures
+            final(self).log() == old(self).log(),
+            r is Ok ==> final(self).medium_flushed(),
+    { unimplemented!() }
+}
+
 impl VStream {
     pub closed spec fn sid(&self) -> int { self.id@ }
     // nothing accepted by the stream is still unflushed
